@@ -921,6 +921,12 @@ func getEventTime(etHeader string) time.Time {
 		if eventTime.IsZero() {
 			// the default didn't catch it, let's try a few other things
 			// is it all numeric? then try unix epoch times
+			if secs, nanos, ok := splitEpochDigits(etHeader); ok {
+				// more than ten digits: seconds followed by a fraction of a
+				// second. Integer arithmetic keeps milli-, micro- and
+				// nanosecond values exact, which a float64 cannot.
+				return time.Unix(secs, nanos).UTC()
+			}
 			epochInt, err := strconv.ParseInt(etHeader, 0, 64)
 			if err == nil {
 				// it might be seconds or it might be milliseconds! Who can know!
@@ -947,6 +953,36 @@ func getEventTime(etHeader string) time.Time {
 		}
 	}
 	return eventTime.UTC()
+}
+
+// splitEpochDigits splits an all-digit epoch of more than ten digits into its
+// first ten digits (seconds) and the remaining digits as a fraction of a
+// second in nanoseconds (digits beyond nanosecond resolution are dropped).
+func splitEpochDigits(s string) (secs int64, nanos int64, ok bool) {
+	if len(s) <= 10 {
+		return 0, 0, false
+	}
+	for i := 0; i < len(s); i++ {
+		if s[i] < '0' || s[i] > '9' {
+			return 0, 0, false
+		}
+	}
+	secs, err := strconv.ParseInt(s[:10], 10, 64)
+	if err != nil {
+		return 0, 0, false
+	}
+	frac := s[10:]
+	if len(frac) > 9 {
+		frac = frac[:9]
+	}
+	for len(frac) < 9 {
+		frac += "0"
+	}
+	nanos, err = strconv.ParseInt(frac, 10, 64)
+	if err != nil {
+		return 0, 0, false
+	}
+	return secs, nanos, true
 }
 
 func makeDecoders(concurrency int) (*zstd.Decoder, error) {
